@@ -1306,4 +1306,139 @@ theorem res_Q {d : Gen.D} {E : Err → Prop} {L : Loc} (hT : L.Clean d E) : ∀ 
     simp only [prQ]; okor
 end
 
+/-! ### statements: which errors can come out -/
+
+theorem OkOr.mono {E E' : Err → Prop} {α : Type} {x : Except Err α} (h : ∀ e, E e → E' e) (hx : OkOr E x) : OkOr E' x :=
+  fun e he => h e (hx e he)
+
+theorem Loc.Clean.mono {d : Gen.D} {E E' : Err → Prop} {L : Loc} (h : ∀ e, E e → E' e) (hT : L.Clean d E) : L.Clean d E' where
+  un := fun o e hb => (hT.un o e hb).mono h
+  bin := fun l o r hb => (hT.bin l o r hb).mono h
+  cmp := fun o l r hb => (hT.cmp o l r hb).mono h
+  cast := fun e sg ty ps hb => (hT.cast e sg ty ps hb).mono h
+  idx := fun a i hb => (hT.idx a i hb).imp id (h _)
+  sel := fun ws dist cols fr lats js wh gb hv ob sb db cb lm hb =>
+    ⟨(hT.sel ws dist cols fr lats js wh gb hv ob sb db cb lm hb).1, (hT.sel ws dist cols fr lats js wh gb hv ob sb db cb lm hb).2.mono h⟩
+  join := fun ty t rule hb => (hT.join ty t rule hb).mono h
+  grp := hT.grp
+  qry := fun ws x us hb => ⟨(hT.qry ws x us hb).1, fun p hp => ((hT.qry ws x us hb).2 p hp).mono h⟩
+
+theorem mapM'_res {E : Err → Prop} {α : Type} (f : α → P) : ∀ (l : List α), (∀ a ∈ l, OkOr E (f a)) → OkOr E (mapM' f l)
+  | [], _ => OkOr.ok _
+  | a :: l, h => by
+    have h1 := h a (List.mem_cons_self ..)
+    have h2 := mapM'_res f l (fun b hb => h b (List.mem_cons_of_mem _ hb))
+    simp only [mapM']
+    exact OkOr.bind h1 (fun _ => OkOr.bind h2 (fun _ => OkOr.pure _))
+
+/-- the statement's own (non-recursive) steps succeed or fail within `E`.  CREATE TABLE and ANALYZE TABLE are taken as a
+whole (their column definitions / partition are outside `anyStmt`); an ALTER TABLE must not carry a column definition. -/
+def StmtClean (d : Gen.D) (E : Err → Prop) : Stmt → Prop
+  | .insertValues h _ => h.withs ≠ none ∧ OkOr E (headGuard d h.type) ∧ OkOr E (wordsSrc Gen.insertTypes h.type)
+  | .insertSelect h _ => h.withs ≠ none ∧ OkOr E (headGuard d h.type) ∧ OkOr E (wordsSrc Gen.insertTypes h.type)
+  | .update ws _ _ _ _ _ => ws ≠ none
+  | .createTable c => OkOr E (prStmt d (.createTable c))
+  | .analyze t p fc cm ns => OkOr E (prStmt d (.analyze t p fc cm ns))
+  | .alter _ ops => ∀ o ∈ ops, ∀ c, o ≠ .add (.col c) ∧ o ≠ .modify (.col c) ∧ ∀ f, o ≠ .change f (.col c)
+  | _ => True
+
+theorem res_OptPartition {d : Gen.D} {E : Err → Prop} {L : Loc} (hT : L.Clean d E) : ∀ p, anyOEs L p = false → OkOr E (prOptPartition d p)
+  | none => fun _ => OkOr.pure _
+  | some p => fun hb => by
+    simp only [prOptPartition, prPartition]
+    exact OkOr.map (OkOr.map (res_Es hT p (by simpa only [anyOEs] using hb)))
+
+theorem res_Head {d : Gen.D} {E : Err → Prop} {L : Loc} (hT : L.Clean d E) (h : InsertHead)
+    (hc : h.withs ≠ none ∧ OkOr E (headGuard d h.type) ∧ OkOr E (wordsSrc Gen.insertTypes h.type)) (hb : anyHead L h = false) :
+    OkOr E (prInsertHead d h) := by
+  simp only [anyHead, Bool.or_eq_false_iff] at hb
+  have e1 := res_OptPartition hT _ hb.1
+  have e2 := res_W hT "\n" _ hc.1 hb.2
+  rw [prInsertHead_eq]
+  refine OkOr.bind hc.2.1 (fun _ => ?_)
+  simp only [prHeadRest]
+  exact OkOr.bind hc.2.2 (fun _ => OkOr.bind e1 (fun _ => OkOr.bind e2 (fun _ => OkOr.pure _)))
+
+theorem res_Tail {d : Gen.D} {E : Err → Prop} {L : Loc} (hT : L.Clean d E) (wh : Option Expr) (ob : Option (List OrderItem))
+    (lm : Option (Int × Option Int)) (hb : (anyOE L wh || anyOOs L ob) = false) : OkOr E (prTail d wh ob lm) := by
+  simp only [Bool.or_eq_false_iff] at hb
+  have e1 : OkOr E (prOptWhereS d wh) := by
+    cases wh with
+    | none => exact OkOr.pure _
+    | some e => exact OkOr.map (res_E hT e (by simpa only [anyOE] using hb.1))
+  have e2 : OkOr E (prOptOrderS d ob) := by
+    cases ob with
+    | none => exact OkOr.pure _
+    | some l => exact OkOr.map (res_Os hT l (by simpa only [anyOOs] using hb.2))
+  rw [prTail_eq]
+  exact OkOr.bind e1 (fun _ => OkOr.bind e2 (fun _ => OkOr.pure _))
+
+theorem res_AlterOp {d : Gen.D} {E : Err → Prop} {L : Loc} (hT : L.Clean d E) : ∀ o,
+    (∀ c, o ≠ .add (.col c) ∧ o ≠ .modify (.col c) ∧ ∀ f, o ≠ .change f (.col c)) → anyAlterOp L o = false → OkOr E (prAlterOp d o)
+  | .addPartition _ p, _, hb => by simp only [prAlterOp, prPartition]; exact OkOr.map (OkOr.map (res_Es hT p hb))
+  | .dropPartition _ p, _, hb => by simp only [prAlterOp, prPartition]; exact OkOr.map (OkOr.map (res_Es hT p hb))
+  | .renameColumn _ _, _, _ => OkOr.ok _
+  | .dropColumn _, _, _ => OkOr.ok _
+  | .add (.col c), hc, _ => ((hc c).1 rfl).elim
+  | .add (.idx _), _, _ => OkOr.ok _
+  | .add (.fk _), _, _ => OkOr.ok _
+  | .modify (.col c), hc, _ => ((hc c).2.1 rfl).elim
+  | .modify (.idx _), _, _ => OkOr.ok _
+  | .modify (.fk _), _, _ => OkOr.ok _
+  | .change f (.col c), hc, _ => ((hc c).2.2 f rfl).elim
+  | .change _ (.idx _), _, _ => OkOr.ok _
+  | .change _ (.fk _), _, _ => OkOr.ok _
+
+theorem res_Stmt {d : Gen.D} {E : Err → Prop} {L : Loc} (hT : L.Clean d E) : ∀ st, StmtClean d E st → anyStmt L st = false →
+    OkOr E (prStmt d st)
+  | .select q, _, hb => res_Q hT q hb
+  | .insertValues h vs, hc, hb => by
+    simp only [anyStmt, Bool.or_eq_false_iff, List.any_eq_false, Bool.not_eq_true] at hb
+    have e1 : OkOr E (mapM' (fun r => (prList d r).map fun p => s!"({joinS ", " p})") vs) :=
+      mapM'_res _ vs (fun r hr => OkOr.map (res_Es hT r (hb.1 r hr)))
+    have e2 := res_Head hT h hc hb.2
+    simp only [prStmt]
+    exact OkOr.bind e1 (fun _ => OkOr.bind e2 (fun _ => OkOr.pure _))
+  | .insertSelect h q, hc, hb => by
+    simp only [anyStmt, Bool.or_eq_false_iff] at hb
+    have e1 := res_Head hT h hc hb.1
+    have e2 := res_Q hT q hb.2
+    simp only [prStmt]
+    exact OkOr.bind e1 (fun _ => OkOr.bind e2 (fun _ => OkOr.pure _))
+  | .update ws t sets wh ob lm, hc, hb => by
+    simp only [anyStmt, Bool.or_eq_false_iff, List.any_eq_false, Bool.not_eq_true, and_assoc] at hb
+    obtain ⟨h1, h2, h3, h4⟩ := hb
+    have e0 := res_W hT "\n\n" ws hc h1
+    have e1 : OkOr E (mapM' (fun (cv : String × Expr) => (prE d cv.2).map fun x => s!"`{cv.1}` = {x}") sets) :=
+      mapM'_res _ sets (fun cv hcv => OkOr.map (res_E hT cv.2 (h2 cv hcv)))
+    have e2 := res_Tail hT wh ob lm (by simp only [h3, h4, Bool.or_false])
+    simp only [prStmt]
+    exact OkOr.bind e0 (fun _ => OkOr.bind e1 (fun _ => OkOr.bind e2 (fun _ => OkOr.pure _)))
+  | .delete t wh ob lm, _, hb => by
+    have e2 := res_Tail hT wh ob lm hb
+    simp only [prStmt]
+    exact OkOr.bind e2 (fun _ => OkOr.pure _)
+  | .createTable c, hc, _ => hc
+  | .createTableAs t q, _, hb => by simp only [prStmt]; exact OkOr.map (res_Q hT q hb)
+  | .dropTable _ _, _, _ => OkOr.ok _
+  | .set _, _, _ => OkOr.ok _
+  | .analyze t p fc cm ns, hc, _ => hc
+  | .alter t ops, hc, hb => by
+    simp only [anyStmt, List.any_eq_false, Bool.not_eq_true] at hb
+    simp only [prStmt]
+    exact OkOr.map (mapM'_res _ ops (fun o ho => res_AlterOp hT o (hc o ho) (hb o ho)))
+  | .msck _, _, _ => OkOr.ok _
+  | .use _, _, _ => OkOr.ok _
+  | .truncate _, _, _ => OkOr.ok _
+  | .showDatabases, _, _ => OkOr.ok _
+  | .showTables, _, _ => OkOr.ok _
+  | .showColumns fr none, _, hb => by
+    simp only [anyStmt, Bool.or_eq_false_iff] at hb
+    simp only [prStmt]
+    exact OkOr.bind (OkOr.pure _) (fun _ => OkOr.bind (res_Fs hT fr hb.2) (fun _ => OkOr.pure _))
+  | .showColumns fr (some e), _, hb => by
+    simp only [anyStmt, Bool.or_eq_false_iff, anyOE] at hb
+    simp only [prStmt]
+    exact OkOr.bind (OkOr.map (res_E hT e hb.1)) (fun _ => OkOr.bind (res_Fs hT fr hb.2) (fun _ => OkOr.pure _))
+
 end PR
